@@ -1234,7 +1234,7 @@ impl Exec {
         }
         {
             let s = d.st();
-            let contract: Vec<String> = s.contract.iter().filter(|c| !c.contains("beyond current length") || kind % 6 != 1).cloned().collect();
+            let contract: Vec<String> = s.contract.clone();
             let cc = s.close_count;
             drop(s);
             for c in contract {
